@@ -17,6 +17,7 @@ type macroDef struct {
 	variadic bool   // the last parameter collects the remaining argument forms
 	probed   bool   // body records the caller's depths before and after the template runs
 	body     *T
+	src      string // the definition's source text, fixed once (it may carry comments)
 }
 
 func (m *macroDef) paramSrc() string {
@@ -28,6 +29,13 @@ func (m *macroDef) paramSrc() string {
 }
 
 func (m *macroDef) defSrc() string {
+	if m.src == "" {
+		m.src = m.defSrc1()
+	}
+	return m.src
+}
+
+func (m *macroDef) defSrc1() string {
 	if m.probed {
 		return fmt.Sprintf("(defmac %s %s (px) (def r__ ^%s) (px) r__)", m.name, m.paramSrc(), m.body.Src(true))
 	}
@@ -228,8 +236,17 @@ func (d *depthRec) install(env *zygo.Zlisp) {
 func runProg(env *zygo.Zlisp, d *depthRec, src string) string {
 	d.c, d.x = nil, nil
 	r := lib.Eval(env, src, budget)
-	dd, _, _, _ := env.VerifDepths()
-	if dd != 0 {
+	dd, ds, da, dl := env.VerifDepths()
+	post := ""
+	if r.Class == lib.OutValue {
+		// a later evaluation at top level: globals as the caller left them
+		if p := lib.Eval(env, "(list a0 g0 w0 w1)", budget); p.Class == lib.OutValue {
+			post = Canon(p.Val).Tok()
+		} else {
+			post = "ERR"
+		}
+	}
+	if d2, s2, a2, l2 := env.VerifDepths(); d2 != 0 || s2 != 1 || a2 != 0 || l2 != 0 {
 		env.Clear()
 	}
 	switch r.Class {
@@ -245,7 +262,7 @@ func runProg(env *zygo.Zlisp, d *depthRec, src string) string {
 				x = "diff:" + d.x[i] + "/" + d.x[i+1]
 			}
 		}
-		return fmt.Sprintf("V=%s +%d C=%s X=%s", Canon(r.Val).Tok(), dd, strings.Join(d.c, ";"), x)
+		return fmt.Sprintf("V=%s +%d R=%d,%d,%d P=%s C=%s X=%s", Canon(r.Val).Tok(), dd, ds, da, dl, post, strings.Join(d.c, ";"), x)
 	case lib.OutPanic:
 		return fmt.Sprintf("PANIC %v", r.Panic)
 	}
@@ -284,7 +301,96 @@ var sites = []site{
 func (h *H) macros(n int) {
 	for i := 0; i < n; i++ {
 		h.oneMacro(i)
+		if i%2 == 0 {
+			h.oneControl(i)
+		}
 	}
+}
+
+// oneControl: expansions that contain control flow which depends on the CALLER's generator
+// context -- (break) / (continue) of a loop outside the expansion with 0..3 scopes (let,
+// newScope) between the loop body and the call, and self tail calls from inside nested lets --
+// inside a function called as a top-level form and directly at top level.  Compared with the
+// hand-written form on value, the residue of all four stacks, and a later top-level lookup of
+// globals that share their names with the function's parameters.
+func (h *H) oneControl(idx int) {
+	r := h.rng
+	wrap := func(body string, k int) string {
+		for j := 0; j < k; j++ {
+			switch r.Intn(3) {
+			case 0:
+				body = fmt.Sprintf("(let [q%d (+ i %d)] %s)", j, j, body)
+			case 1:
+				body = fmt.Sprintf("(newScope (def q%d %d) %s)", j, j, body)
+			default:
+				body = fmt.Sprintf("(letseq [q%d i r%d q%d] %s)", j, j, j, body)
+			}
+		}
+		return body
+	}
+	k := r.Intn(4)
+	lim := r.Intn(5)
+	type ctl struct{ def, mac, hand, name string }
+	var c ctl
+	kind := r.Intn(5)
+	switch kind {
+	case 0:
+		c = ctl{"(defmac brk [c] ^(cond ~c (break) 0))", fmt.Sprintf("(brk (> i %d))", lim), fmt.Sprintf("(cond (> i %d) (break) 0)", lim), "break-cond"}
+	case 1:
+		c = ctl{"(defmac cnt [c] ^(cond ~c (continue) 0))", fmt.Sprintf("(cnt (== i %d))", lim), fmt.Sprintf("(cond (== i %d) (continue) 0)", lim), "continue-cond"}
+	case 2:
+		c = ctl{"(defmac brk0 [] ^(break))", fmt.Sprintf("(cond (> i %d) (brk0) 0)", lim), fmt.Sprintf("(cond (> i %d) (break) 0)", lim), "break-bare"}
+	case 3:
+		c = ctl{"(defmac cnt1 [v] ^(begin (set ~v (+ ~v 100)) (continue)))", fmt.Sprintf("(cond (== i %d) (cnt1 acc) 0)", lim), fmt.Sprintf("(cond (== i %d) (begin (set acc (+ acc 100)) (continue)) 0)", lim), "continue-begin"}
+	default:
+		c = ctl{"(defmac again [f n acc] ^(~f (- ~n 1) (+ ~acc ~n)))", "", "", "self-tail"}
+	}
+	var progM, progH string
+	inFn := r.Intn(3) != 0
+	mk := func(x string) string {
+		if kind == 4 {
+			body := "(cond (== a0 0) acc " + x + ")"
+			for j := 0; j < k; j++ {
+				body = fmt.Sprintf("(let [q%d %d] %s)", j, j, body)
+			}
+			return "(defn ts9 [a0 acc] " + body + ") (ts9 4 0)"
+		}
+		loop := "(for [(def i 0) (< i 6) (set i (+ i 1))] " + wrap("(begin "+x+" (set acc (+ acc i)))", k) + ")"
+		if inFn {
+			return "(defn cf9 [a0 w0] (def acc 0) " + loop + " (list acc a0 w0)) (cf9 77 88)"
+		}
+		return "(def acc 0) " + loop + " (list acc a0 w0)"
+	}
+	if kind == 4 {
+		progM, progH = mk("(again ts9 a0 acc)"), mk("(ts9 (- a0 1) (+ acc a0))")
+	} else {
+		progM, progH = mk(c.mac), mk(c.hand)
+	}
+	setup := func(withMacro bool) (*zygo.Zlisp, *depthRec) {
+		env := newEnv()
+		h.envN++
+		d := &depthRec{}
+		d.install(env)
+		defs := []string{"(def g0 11)", "(def gl (list 1 2 3))", "(def a0 3)", "(def w0 40)", "(def w1 50)"}
+		if withMacro {
+			defs = append(defs, c.def)
+		}
+		for _, s := range defs {
+			if r := lib.Eval(env, s, budget); r.Class != lib.OutValue {
+				panic("harness: control setup failed: " + s + " => " + r.Show())
+			}
+		}
+		return env, d
+	}
+	envM, dM := setup(true)
+	envH, dH := setup(false)
+	actual := runProg(envM, dM, progM)
+	expected := runProg(envH, dH, progH)
+	// a second, later call in the same interpreter
+	actual += " ;2; " + runProg(envM, dM, progM)
+	expected += " ;2; " + runProg(envH, dH, progH)
+	h.out.Case("call|"+expected+"|ctl-"+c.name+"|"+c.def+"|"+progM+"|"+progH, actual, true,
+		"control-"+c.name, fmt.Sprintf("control-scopes-between-%d", k))
 }
 
 func (h *H) oneMacro(idx int) {
@@ -306,6 +412,12 @@ func (h *H) oneMacro(idx int) {
 		m.variadic = false
 		m.body, formKind = h.genFormKind(m)
 		np = len(m.params)
+	}
+	if r.Intn(3) == 0 {
+		// comments inside the macro body and its template (multi-line macro bodies)
+		commentFn = h.someComment
+		m.src = strings.Replace(m.defSrc1(), "] ", "]\n  // what it expands to\n  ", 1)
+		commentFn = nil
 	}
 	// argument forms
 	var args []*V
@@ -344,8 +456,12 @@ func (h *H) oneMacro(idx int) {
 		argTok[j] = a.Tok()
 	}
 	callSrc := "(" + m.name
+	argSep := " "
+	if r.Intn(5) == 0 {
+		argSep = " /* arg */ "
+	}
 	if len(args) > 0 {
-		callSrc += " " + strings.Join(argSrc, " ")
+		callSrc += argSep + strings.Join(argSrc, argSep)
 	}
 	callSrc += ")"
 
@@ -415,7 +531,12 @@ func (h *H) oneMacro(idx int) {
 
 	// ---- mac case: macexpand
 	vtok := "yPARSE-ERROR"
-	if x, ok := h.parseOne("^" + m.body.Src(true)); ok {
+	// the template as it stands in the macro's definition text (comments and all)
+	bodySrc := "^" + m.body.Src(true)
+	if i := strings.LastIndex(m.defSrc(), " ^"); i >= 0 && !m.probed {
+		bodySrc = strings.TrimSuffix(m.defSrc()[i+1:], ")")
+	}
+	if x, ok := h.parseRaw(bodySrc); ok {
 		if arg, ok := sqArg(x); ok {
 			vtok = Canon(arg).Tok()
 		}
@@ -454,7 +575,7 @@ func (h *H) oneMacro(idx int) {
 		tags = append(tags, formKind)
 	}
 	nontrivial := m.body.Count('U')+m.body.Count('S') > 0
-	h.out.Case("mac|"+m.defSrc()+" ;; (macexpand "+callSrc+")|"+strings.Join(m.params, " ")+"|"+m.body.Tok()+"|"+vtok+"|"+strings.Join(modelArgs, " , ")+binds,
+	h.out.Case("mac|"+esc(m.defSrc())+" ;; (macexpand "+callSrc+")|"+strings.Join(m.params, " ")+"|"+m.body.Tok()+"|"+vtok+"|"+strings.Join(modelArgs, " , ")+binds,
 		"E="+etok+" H="+handTok, nontrivial, tags...)
 
 	// ---- call cases: every site, macro call against the hand-written expansion
@@ -469,7 +590,7 @@ func (h *H) oneMacro(idx int) {
 		if hand != nil {
 			expected = runProg(envH, dH, s.prog(handSrc))
 		}
-		desc := s.name + "|" + m.defSrc() + "|" + s.prog(callSrc) + "|" + s.prog(handSrc)
+		desc := s.name + "|" + esc(m.defSrc()) + "|" + s.prog(callSrc) + "|" + s.prog(handSrc)
 		h.out.Case("call|"+expected+"|"+desc, actual, nontrivial, "site-"+s.name)
 	}
 	// a macro whose expansion is the macro call: (via args) -> (m args)
@@ -481,6 +602,6 @@ func (h *H) oneMacro(idx int) {
 		if hand != nil {
 			expected = runProg(envH, dH, ph)
 		}
-		h.out.Case("call|"+expected+"|via-macro|"+m.defSrc()+"|"+pm+"|"+ph, actual, nontrivial, "site-via-macro")
+		h.out.Case("call|"+expected+"|via-macro|"+esc(m.defSrc())+"|"+pm+"|"+ph, actual, nontrivial, "site-via-macro")
 	}
 }
